@@ -95,7 +95,7 @@ func init() {
 		ID:     "C12",
 		Word32: true,
 		Level:  "exploration",
-		Rule: "E1 + depth-bounded E2: (of) every subset of the 11 boundary positions {0,1,62,63,64,65,127,128,129,191,192} × n in {absent,-5,0,1,63,64,65,128,129,193,300}: word count and exact bit set of Of, ToArray(Of(l)) = l, Of(ToArray(b)) = b up to trailing zero words, and Get/Get1 inside plus SafeGet/SafeGet1 at every probe in [-70, 64·words+70); " +
+		Rule: "E1 + depth-bounded E2: (of) every subset of the 11 boundary positions {0,1,62,63,64,65,127,128,129,191,192} × n in {absent,-5,0,1,63,64,65,128,129,193,300}, and EVERY n in [-1100, 1100] plus far negative ones with the empty list and five short lists: word count and exact bit set of Of, ToArray(Of(l)) = l, Of(ToArray(b)) = b up to trailing zero words, and Get/Get1 inside plus SafeGet/SafeGet1 at every probe in [-70, 64·words+70); " +
 			"(of, far) every subset of {0,63,64,4095,4096,4097,65535,65536,2^20-1,2^20} × 6 sizes with probes around every position and end; (ofmany) every sequence of ≤3 segments (positions ⊂ {0,1,63,64,65}, size in {0,1,63,64,65,130}; positions ≥ size included, so the shifted concatenation need not be ascending) whose shifted bits all fit into the word count the statement gives, against the set model and that word count; " +
 			"(dense) ToArray, Of(ToArray(b)) and Get / Get1 / SafeGet / SafeGet1 at every position on every bitmap of ≤4 words over the 12-word core alphabet and ≤2 words with one wide word (dense bitmaps: all-ones words and runs of them), and on long dense bitmaps of every length 5..300 words and every threshold length to 1100 words × 4 patterns (position lists of up to 70400 entries); (ofmany, many segments) OfMany on every threshold number of segments (round numbers ±1) from 1000 to 70000; (giant, 64-bit builds) the top of the int32 position range: Of on 12 (positions, n) combinations whose last bit or size lies within 65 of MaxInt32 (bitmaps of 2^25-1 and 2^25 words), with ToArray on two of them, Get/SafeGet probes next to every bit and SafeGet at MinInt32, and OfMany / a Builder whose running offset ends 50 below MaxInt32; reference arithmetic in int64; " +
 			"(builder) every sequence of ≤3 operations over the 234-operation alphabet (and every sequence of 4..R operations over a 10-operation sub-alphabet) {Extend(those 192 segments, the 6 without positions in each of 4 forms: nil, non-nil, with dirty spare capacity, empty tail of a longer array), Set(pos in {0,1,63,64,65,200}, value in 0..3)} executed on a real Builder from NewBuilder(0) and NewBuilder(256) (depth ≤2 also from NewBuilder(64) and NewBuilder(130)), with a second Builder extended and set between the steps (objects must not share state): set bits, Offset, capacity for every bit, and exact equality with the reference Of for Extend-only histories with ascending positions. A case is one call / one history; non-trivial when at least one bit is set.",
@@ -584,6 +584,28 @@ func c12Run(c *mc.Ctx) {
 			c.ForceSample(map[string]interface{}{"fn": "Of/ToArray/Get*", "positions": pos, "n": "each of absent,-5,0,1,63,64,65,128,129,193,300", "probes_per_case": "[-70, 64*words+70)"})
 		}
 	})
+	// (of, n sweep) EVERY n in [-1100, 1100] and a few far negative ones, with the empty list and five short
+	// lists: "all n (negative, smaller and larger than last+1)" - the word count is ceil(max(n, last+1, 0)/64)
+	{
+		var ns []int32
+		for n := int32(-1100); n <= 1100; n++ {
+			ns = append(ns, n)
+		}
+		ns = append(ns, -1<<31, -1<<31+1, -1<<30, -65537, -65536, -65535, -4097, -4096, -4095)
+		lists := [][]int32{{}, {0}, {5}, {63}, {64}, {1, 200}}
+		c.Expect(int64(len(ns) * len(lists)))
+		c.Par(len(ns), func(ni int) {
+			for li, pos := range lists {
+				g, w, pr := c12OfOne(pos, true, ns[ni], nil)
+				if g != w {
+					c.Fail(9<<40|int64(ni)<<8|int64(li), "Of", "Of/n-sweep", c12Case{Pos: pos, HasN: true, N: ns[ni]}, g, w)
+				}
+				c.Add("probe_calls", pr*4)
+			}
+			c.Count(int64(len(lists)), int64(len(lists)))
+			c.Add("of_n_sweep_cases", int64(len(lists)))
+		})
+	}
 	// (of, empty forms) the EMPTY position list in every form a caller can hand it over (nil, non-nil,
 	// dirty spare capacity, empty tail of a longer array) × every n; and as each segment of an OfMany
 	for f := 0; f < gen.EmptyForms; f++ {
